@@ -86,9 +86,9 @@ def run_harness(binary, args, cwd, timeout=600, stdin=None, env_extra=None):
 
 
 # --------------------------------------------------------------------- TLC
-JVM_SMALL = ["-Xmx1g", "-Xms256m", "-XX:+UseParallelGC", "-XX:ParallelGCThreads=2", "-XX:CICompilerCount=2",
+JVM_SMALL = ["-Xss256m", "-Xmx2g", "-Xms256m", "-XX:+UseParallelGC", "-XX:ParallelGCThreads=2", "-XX:CICompilerCount=2",
              "-XX:TieredStopAtLevel=1"]
-JVM_BIG = ["-XX:+UseParallelGC", "-Xmx12g"]
+JVM_BIG = ["-Xss64m", "-XX:+UseParallelGC", "-Xmx12g"]
 
 
 class TLCResult:
